@@ -5,14 +5,20 @@ CONSTANTS MAXIT,      \* iterations per run (exact dyadic rationals: 32-bit inte
 Out(rec) == IF "OUT" \in DOMAIN IOEnv THEN CSVWrite("%1$s", <<ToJson(rec)>>, IOEnv.OUT) ELSE TRUE
 VARIABLES o, ftol, p, y, psum, nfunc, it, pc, evals, best0, prevbest, kinds
 vars == <<o, ftol, p, y, psum, nfunc, it, pc, evals, best0, prevbest, kinds>>
-Objs2 == {[a |-> <<a1, a2>>, b |-> bb, c |-> cc, f0 |-> ff] : a1 \in {1, 2}, a2 \in {1, 3}, bb \in {-1, 0, 1}, cc \in {<<0, 0>>, <<3, -2>>}, ff \in {1, 5}}
-Objs1 == {[a |-> <<a1>>, b |-> 0, c |-> cc, f0 |-> ff] : a1 \in {1, 3}, cc \in {<<0>>, <<2>>, <<-5>>}, ff \in {1, 7}}
+Objs2 == {[kind |-> 0, d |-> cc, w |-> 0, a |-> <<a1, a2>>, b |-> bb, c |-> cc, f0 |-> ff] : a1 \in {1, 2}, a2 \in {1, 3}, bb \in {-1, 0, 1}, cc \in {<<0, 0>>, <<3, -2>>}, ff \in {1, 5}}
+Objs1 == {[kind |-> 0, d |-> cc, w |-> 0, a |-> <<a1>>, b |-> 0, c |-> cc, f0 |-> ff] : a1 \in {1, 3}, cc \in {<<0>>, <<2>>, <<-5>>}, ff \in {1, 7}}
+\* two wells: start simplices wide enough to straddle the ridge between them
+Wells2 == {[kind |-> 1, d |-> dd, w |-> ww, a |-> <<a1, a2>>, b |-> 0, c |-> <<0, 0>>, f0 |-> 1] : a1 \in {1, 2}, a2 \in {1, 3}, dd \in {<<8, 6>>, <<-6, 10>>}, ww \in {1, 2}}
+Wells1 == {[kind |-> 1, d |-> dd, w |-> ww, a |-> <<a1>>, b |-> 0, c |-> <<0>>, f0 |-> 1] : a1 \in {1, 2}, dd \in {<<10>>, <<-6>>}, ww \in {1, 2}}
+WStarts2 == {<<x, yy, dx>> : x \in {-1, 0, 2}, yy \in {-1, 0}, dx \in {6, 8, 10}} \cup {<<x, yy, -8>> : x \in {8, 7}, yy \in {6, 5}}
 Starts2 == IF WIDE THEN {<<x, yy, dx>> : x \in {-4, -2, 0, 1, 3}, yy \in {-3, -1, 1, 2}, dx \in {1, 2}}
                    ELSE {<<x, yy, dx>> : x \in {-4, 0, 3}, yy \in {-3, 1}, dx \in {1, 2}}
 Simplex2(s) == << <<R(s[1]), R(s[2])>>, <<R(s[1] + s[3]), R(s[2])>>, <<R(s[1]), R(s[2] + s[3])>> >>
 Simplex1(x, dx) == << <<R(x)>>, <<R(x + dx)>> >>
 Init == /\ \/ \E ob \in Objs2, s \in Starts2 : o = ob /\ p = Simplex2(s)
            \/ \E ob \in Objs1, x \in (IF WIDE THEN {-6, -3, 0, 1, 4, 5} ELSE {-6, 0, 4}), dx \in {1, 3} : o = ob /\ p = Simplex1(x, dx)
+           \/ \E ob \in Wells2, s \in WStarts2 : o = ob /\ p = Simplex2(s)
+           \/ \E ob \in Wells1, x \in {-1, 0, 1, 10, -6}, dx \in {10, -6, 8, -10} : o = ob /\ p = Simplex1(x, dx)
         /\ ftol \in {Frac(1, 4), Frac(1, 64)}
         /\ y = [i \in 1..Len(p) |-> Obj(o, p[i])] /\ psum = Psum(p) /\ nfunc = 0 /\ it = 0 /\ pc = "loop"
         /\ evals = p /\ best0 = MinOf(y) /\ prevbest = MinOf(y) /\ kinds = <<>>
